@@ -132,6 +132,15 @@ theorem ref_op_eq_any (m : Nat) (a : Val) (c : Ctr) (hw : a.wf = true) (hp : Pro
 theorem ref_op_eq_all (m : Nat) (a : Val) (c : Ctr) (hw : a.wf = true) (hp : Proper a) :
     OpAgree m (Interp.opAll 0 m a c) (Ref.opAll a.erase) := opAll_agree m a c hw hp
 
+theorem ref_op_eq_substr (m : Nat) (a : Val) (c : Ctr) (hw : a.wf = true) (hp : Proper a) :
+    OpAgree m (Interp.opSubstr 0 m a c) (Ref.opSubstr a.erase) := opSubstr_agree m a c hw hp
+
+theorem ref_op_eq_ash (m : Nat) (a : Val) (c : Ctr) (hw : a.wf = true) (hp : Proper a) :
+    OpAgree m (Interp.opAsh 0 m a c) (Ref.opAsh a.erase) := opAsh_agree m a c hw hp
+
+theorem ref_op_eq_lsh (m : Nat) (a : Val) (c : Ctr) (hw : a.wf = true) (hp : Proper a) :
+    OpAgree m (Interp.opLsh 0 m a c) (Ref.opLsh a.erase) := opLsh_agree m a c hw hp
+
 /-! ### environment paths -/
 
 /-- **`path_eq`**: for every path atom (any bytes: leading zero bytes, empty, arbitrary length) and
